@@ -177,6 +177,24 @@ def conformance(m: HdlcModel):
     return res
 
 
+def raw_history_values(m: HdlcModel):
+    """the raw-octet history (consulted by the abort test `escape directly before the flag`) records the received octets themselves"""
+    res = []
+    n = 0
+    for sp in m.paths:
+        if not m.feasible(sp):
+            continue
+        for op in sp.post.raw_ops:
+            if isinstance(op, tuple) and op[0] == "append":
+                n += 1
+                if op[1] != ("popped",) and not (op[1] == ("const", m.flag) and sp.lits.get("F")):
+                    res.append(Result("bad", "raw-value", "raw-history-value", "the raw-octet history records something other than the received octet (e.g. the un-stuffed value): the abort test "
+                                      "`control escape directly before the closing flag` then misfires on data octets", loc(m, sp), witness=f"[{sp.guard_text()}] => {sp.post.brief()}"))
+    if not res:
+        res.append(Result("ok", "raw-value", "raw-octet history", f"{n} append(s): always the octet as received"))
+    return res
+
+
 def fresh_only_at_flag(m: HdlcModel):
     """a frame may only start at a flag octet: a fresh frame started on a non-flag octet parses mid-stream garbage as a frame"""
     res = []
